@@ -43,7 +43,7 @@ struct Slot {
     volatile uint32_t len;
     volatile uint64_t case_no;
     volatile uint64_t start_ms;
-    uint64_t evals, nontrivial, inconclusive, nhashes;
+    uint64_t evals, nontrivial, inconclusive, nhashes, inner;
     char label[160];
     char msg[6000];
     LabelStat labels[NLABEL];
@@ -412,6 +412,7 @@ void add_label(Slot* sl, const char* name);
 //! statistics of a case that passed (or was inconclusive), kept in shared memory
 void record_case(Slot* sl, Verdict v, size_t consumed) {
     ++sl->evals;
+    sl->inner += pbt::ctx().inner;
     if (v == V_INCONCLUSIVE) ++sl->inconclusive;
     for (const char* l : pbt::ctx().labels) add_label(sl, l);
     if (pbt::ctx().nontrivial && v == V_PASS) {
@@ -605,13 +606,14 @@ int cmd_run(const RunCfg& cfg) {
     }
 
     // merge stats
-    uint64_t evals = 0, nontrivial = 0, inconcl = 0;
+    uint64_t evals = 0, nontrivial = 0, inconcl = 0, inner = 0;
     std::vector<uint64_t> allh;
     std::map<std::string, uint64_t> labels;
     std::vector<std::string> samples;
     for (int w = 0; w < W; ++w) {
         Slot& sl = slots[w];
         evals += sl.evals;
+        inner += sl.inner;
         nontrivial += sl.nontrivial;
         inconcl += sl.inconclusive;
         allh.insert(allh.end(), hashes + hash_cap * w, hashes + hash_cap * w + sl.nhashes);
@@ -653,6 +655,8 @@ int cmd_run(const RunCfg& cfg) {
     j += " \"target\": \"" + json_escape(cfg.target) + "\",\n";
     snprintf(tmp, sizeof tmp, " \"seed\": %llu,\n \"cases_requested\": %llu,\n \"evaluations\": %llu,\n",
              (unsigned long long)cfg.seed, (unsigned long long)cfg.cases, (unsigned long long)evals);
+    j += tmp;
+    snprintf(tmp, sizeof tmp, " \"inner_evaluations\": %llu,\n", (unsigned long long)inner);
     j += tmp;
     snprintf(tmp, sizeof tmp, " \"nontrivial\": %llu,\n \"distinct_nontrivial\": %llu,\n \"inconclusive\": %llu,\n",
              (unsigned long long)nontrivial, (unsigned long long)distinct, (unsigned long long)inconcl);
